@@ -1,4 +1,312 @@
-import HL.Model.Dec
+import HL.Model.Balance
+import HL.Spec.BalanceSpec
+import HL.Lemmas.Dec
+import HL.Lemmas.Balance
+
+/-!
+  C02 "Unbalanced-transaction verdicts are exact" — the arithmetic core.
+
+  * `check_exact`: for EVERY transaction `Balance.check` (the model of `CheckBalance`) either
+    panics exactly when `decimal.Mul` overflows, or returns a result that corresponds to the
+    statement's verdict on the exact rational image of the transaction, including equality of
+    the difference map as a finite map to `Rat` (order-free).
+  * `diag_exact`: the diagnostic code analyzeInternal emits is the one the verdict demands.
+  * `message_numbers_exact`: every difference named in the UNBALANCED message is the absolute
+    residual of its commodity, which is non-zero.
+  * `verdict_notation_invariant`: transactions with the same rational image get the same verdict.
+-/
 namespace HL.Props.C02
-theorem placeholder_neg (a : Dec) : (Dec.neg a).exp = a.exp := rfl
+open HL HL.Ast HL.Balance HL.Spec.Bal
+
+/-- Equality of a decimal difference map and a rational one as finite maps. -/
+def SameMap (a : Sums) (b : List (Bytes × Rat)) : Prop :=
+  ∀ c, (KV.find? a c).map Dec.toRat = KV.find? b c
+
+/-- What it means for a `CheckBalance` result to state a verdict. -/
+def Corresponds (r : Result) : Verdict → Prop
+  | .ok => r.balanced = true ∧ r.differences = []
+  | .multiple => r.balanced = false ∧ r.differences = [] ∧ r.inferredIdx = -1
+  | .unbalanced d => r.balanced = false ∧ r.differences ≠ [] ∧ (KV.keys r.differences).Nodup ∧
+      SameMap r.differences d
+
+/-- The only way `CheckBalance` can fail: at most one posting lacks an amount (so the sums are
+    computed) and some real posting with a unit cost makes `decimal.Mul` overflow int32. -/
+def Overflows (tx : Transaction) : Prop :=
+  missing (image tx) ≤ 1 ∧ ∃ p ∈ filterReal tx.postings, mulOverflow p
+
+theorem sameMap_nil_iff {a : Sums} {b : List (Bytes × Rat)} (h : SameMap a b) : a = [] ↔ b = [] := by
+  constructor
+  · intro ha
+    subst ha
+    cases b with
+    | nil => rfl
+    | cons x r =>
+      obtain ⟨k, v⟩ := x
+      have := h k
+      simp [KV.find?] at this
+  · intro hb
+    subst hb
+    cases a with
+    | nil => rfl
+    | cons x r =>
+      obtain ⟨k, v⟩ := x
+      have := h k
+      simp [KV.find?] at this
+
+theorem keys_differencesOf_sublist (sums : Sums) :
+    List.Sublist (KV.keys (differencesOf sums)) (KV.keys sums) := by
+  induction sums with
+  | nil => simp [differencesOf, KV.keys]
+  | cons a r ih =>
+    obtain ⟨k, v⟩ := a
+    rw [differencesOf_cons]
+    cases hz : Dec.isZero v with
+    | true =>
+      simp only [if_true]
+      exact List.Sublist.cons _ ih
+    | false =>
+      simp only [Bool.false_eq_true, if_false]
+      exact List.Sublist.cons₂ _ ih
+
+theorem rabs_eq (q : Rat) : Dec.rabs q = rabs q := rfl
+
+/-- the decimal sums are the exact residuals and the differences the exact absolute residuals. -/
+theorem differences_sameMap (tx : Transaction) (sums : Sums)
+    (hs : sumByCommodity (filterReal tx.postings) [] = some sums) :
+    (KV.keys (differencesOf sums)).Nodup ∧
+    SameMap (differencesOf sums) (diffs totalBySignum (image tx)) := by
+  obtain ⟨hn, hv⟩ := sum_spec _ _ _ hs (by simp [KV.keys])
+  refine ⟨List.Sublist.nodup (keys_differencesOf_sublist sums) hn, ?_⟩
+  intro c
+  have hres : Dec.toRat (KV.get sums c Dec.zero) = residual totalBySignum (image tx) c := by
+    rw [hv c]
+    unfold residual
+    rw [contributions_image]
+    simp [KV.get, Dec.toRat_zero, Rat.zero_add]
+  rw [find?_differencesOf sums hn c, find?_diffs, ← hres, KV.get_eq_find?]
+  cases hf : KV.find? sums c with
+  | none => simp [Dec.toRat_zero]
+  | some v =>
+    simp only [Option.getD_some]
+    cases hz : Dec.isZero v with
+    | true =>
+      have := (Dec.isZero_iff v).1 hz
+      simp [this]
+    | false =>
+      have : ¬ Dec.toRat v = 0 := fun e => by
+        have := (Dec.isZero_iff v).2 e
+        rw [hz] at this; cases this
+      simp [this, Dec.abs_exact, rabs_eq]
+
+/-- **check_exact.**  For every transaction — any number of postings, any commodities, any
+    decimals — the model of `CheckBalance` panics exactly in the overflow case and otherwise
+    states the verdict of the exact-sum rule on the rational image of the transaction. -/
+theorem check_exact (tx : Transaction) :
+    match check tx with
+    | none => Overflows tx
+    | some r => Corresponds r (verdict (image tx)) := by
+  unfold check
+  have hm := missing_image tx
+  simp only
+  generalize hci : countInferred (filterReal tx.postings) 0 (0, -1) = ci at hm ⊢
+  obtain ⟨cnt, idx⟩ := ci
+  simp only at hm ⊢
+  by_cases h1 : cnt > 1
+  · simp only [h1, if_true]
+    unfold verdict verdictWith
+    rw [hm]
+    simp [h1, Corresponds]
+  · simp only [h1, if_false]
+    cases hs : sumByCommodity (filterReal tx.postings) [] with
+    | none =>
+      simp only
+      exact ⟨by omega, (sum_none_iff _ _).1 hs⟩
+    | some sums =>
+      simp only
+      by_cases h2 : cnt = 1
+      · subst h2
+        simp only [beq_self_eq_true, if_true]
+        unfold verdict verdictWith
+        rw [hm]
+        simp [Corresponds]
+      · have h0 : cnt = 0 := by omega
+        subst h0
+        simp only [show ((0 : Nat) == 1) = false from rfl, Bool.false_eq_true, if_false]
+        obtain ⟨hnd, hsame⟩ := differences_sameMap tx sums hs
+        unfold verdict verdictWith
+        rw [hm]
+        simp only [show ¬ (0 : Nat) > 1 from by omega, if_false, show ¬ (0 : Nat) = 1 from by omega]
+        by_cases hd : differencesOf sums = []
+        · have hb := (sameMap_nil_iff hsame).1 hd
+          simp [hd, hb, Corresponds]
+        · have hb : diffs totalBySignum (image tx) ≠ [] := fun e => hd ((sameMap_nil_iff hsame).2 e)
+          have e1 : (differencesOf sums).isEmpty = false := by
+            cases hh : differencesOf sums with
+            | nil => exact absurd hh hd
+            | cons _ _ => rfl
+          have e2 : (diffs totalBySignum (image tx)).isEmpty = false := by
+            cases hh : diffs totalBySignum (image tx) with
+            | nil => exact absurd hh hb
+            | cons _ _ => rfl
+          simp only [e1, e2, Bool.false_eq_true, if_false, Corresponds]
+          exact ⟨trivial, hd, hnd, hsame⟩
+
+/-- `CheckBalance` fails exactly in the overflow case. -/
+theorem check_none_iff (tx : Transaction) : check tx = none ↔ Overflows tx := by
+  constructor
+  · intro h
+    have := check_exact tx
+    rw [h] at this
+    exact this
+  · rintro ⟨hle, hov⟩
+    unfold check
+    have hm := missing_image tx
+    simp only
+    generalize hci : countInferred (filterReal tx.postings) 0 (0, -1) = ci at hm ⊢
+    obtain ⟨cnt, idx⟩ := ci
+    simp only at hm ⊢
+    have : ¬ cnt > 1 := by omega
+    simp only [this, if_false]
+    rw [(sum_none_iff _ _).2 hov]
+
+/-- Decimal exponents within the parser's bound (|exponent| ≤ 1000, fix e860024). -/
+def BoundedExps (tx : Transaction) : Prop :=
+  ∀ p ∈ tx.postings, ∀ a c, p.amount = some a → p.cost = some c →
+    (-1000 ≤ a.quantity.exp ∧ a.quantity.exp ≤ 1000 ∧ -1000 ≤ c.amount.quantity.exp ∧ c.amount.quantity.exp ≤ 1000)
+
+/-- On every transaction the parser can produce, `CheckBalance` returns and is exact. -/
+theorem check_exact_bounded (tx : Transaction) (hb : BoundedExps tx) :
+    ∃ r, check tx = some r ∧ Corresponds r (verdict (image tx)) := by
+  have h := check_exact tx
+  cases hc : check tx with
+  | some r => rw [hc] at h; exact ⟨r, rfl, h⟩
+  | none =>
+    rw [hc] at h
+    obtain ⟨_, p, hp, a, c, ha, hcst, _, hov⟩ := h
+    have hp' : p ∈ tx.postings := (List.mem_filter.1 hp).1
+    have := hb p hp' a c ha hcst
+    unfold Dec.int32Max Dec.int32Min at hov
+    omega
+
+example : BoundedExps ⟨default, none, .none, [], [], [], [],
+    [⟨.none, ⟨bs "a:b", default⟩, some ⟨⟨150, -2⟩, [], ⟨bs "USD", .right, default⟩, false, default⟩, none,
+      some ⟨⟨⟨3, 0⟩, [], ⟨bs "EUR", .right, default⟩, false, default⟩, false, default⟩, [], [], .none, default⟩],
+    [], [], default⟩ := by
+  intro p hp a c ha hc
+  simp only [List.mem_singleton] at hp
+  subst hp
+  cases ha; cases hc
+  decide
+
+/-! ### the diagnostic analyzeInternal emits -/
+
+def codeOf : Verdict → Option Code
+  | .ok => none
+  | .multiple => some .multipleInferred
+  | .unbalanced _ => some .unbalanced
+
+/-- **diag_exact.**  UNBALANCED is emitted exactly for `unbalanced`, MULTIPLE_INFERRED exactly
+    for `multiple`, nothing for `ok` (whenever `CheckBalance` returns). -/
+theorem diag_exact (tx : Transaction) (h : ¬ Overflows tx) :
+    diagCode tx = some (codeOf (verdict (image tx))) := by
+  have hc := check_exact tx
+  unfold diagCode
+  cases hr : check tx with
+  | none => rw [hr] at hc; exact absurd hc h
+  | some r =>
+    rw [hr] at hc
+    simp only
+    cases hv : verdict (image tx) with
+    | ok =>
+      rw [hv] at hc
+      simp [hc.1, codeOf]
+    | multiple =>
+      rw [hv] at hc
+      obtain ⟨h1, h2, h3⟩ := hc
+      simp [h1, codeOf, balanceDiagnostic, h2, h3]
+    | unbalanced d =>
+      rw [hv] at hc
+      obtain ⟨h1, h2, _, _⟩ := hc
+      have : r.differences.isEmpty = false := by
+        cases hh : r.differences with
+        | nil => exact absurd hh h2
+        | cons _ _ => rfl
+      simp [h1, codeOf, balanceDiagnostic, this]
+
+/-- **message_numbers_exact.**  Whatever order Go's map iteration takes, each pair
+    `(commodity, difference)` written into the UNBALANCED message is a commodity whose exact
+    residual is non-zero together with the exact absolute value of that residual, and every
+    commodity with a non-zero residual is named. -/
+theorem message_numbers_exact (tx : Transaction) (r : Result) (h : check tx = some r)
+    (hu : r.balanced = false) (hd : r.differences ≠ []) (c : Bytes) :
+    (KV.find? r.differences c).map Dec.toRat =
+      (if residual totalBySignum (image tx) c = 0 then none
+       else some (rabs (residual totalBySignum (image tx) c))) := by
+  have hc := check_exact tx
+  rw [h] at hc
+  cases hv : verdict (image tx) with
+  | ok => rw [hv] at hc; rw [hc.1] at hu; cases hu
+  | multiple => rw [hv] at hc; exact absurd hc.2.1 hd
+  | unbalanced d =>
+    rw [hv] at hc
+    obtain ⟨_, _, _, hs⟩ := hc
+    rw [hs c]
+    have : d = diffs totalBySignum (image tx) := by
+      unfold verdict verdictWith at hv
+      split at hv
+      · cases hv
+      · split at hv
+        · cases hv
+        · simp only at hv
+          split at hv
+          · cases hv
+          · cases hv; rfl
+    rw [this, find?_diffs]
+
+/-- **verdict_notation_invariant.**  Two transactions whose postings have the same exact
+    rational image (same kinds, commodities and values — however the numbers were written,
+    wherever the signs and commodities stood) receive the same diagnostic. -/
+theorem verdict_notation_invariant (tx₁ tx₂ : Transaction) (himg : image tx₁ = image tx₂)
+    (h₁ : ¬ Overflows tx₁) (h₂ : ¬ Overflows tx₂) :
+    diagCode tx₁ = diagCode tx₂ ∧
+    ∀ r₁ r₂, check tx₁ = some r₁ → check tx₂ = some r₂ →
+      r₁.balanced = r₂.balanced ∧
+      ∀ c, (KV.find? r₁.differences c).map Dec.toRat = (KV.find? r₂.differences c).map Dec.toRat := by
+  refine ⟨by rw [diag_exact tx₁ h₁, diag_exact tx₂ h₂, himg], ?_⟩
+  intro r₁ r₂ e₁ e₂
+  have c₁ := check_exact tx₁
+  have c₂ := check_exact tx₂
+  rw [e₁] at c₁
+  rw [e₂] at c₂
+  rw [himg] at c₁
+  cases hv : verdict (image tx₂) with
+  | ok =>
+    rw [hv] at c₁ c₂
+    refine ⟨by rw [c₁.1, c₂.1], fun c => by rw [c₁.2, c₂.2]⟩
+  | multiple =>
+    rw [hv] at c₁ c₂
+    refine ⟨by rw [c₁.1, c₂.1], fun c => by rw [c₁.2.1, c₂.2.1]⟩
+  | unbalanced d =>
+    rw [hv] at c₁ c₂
+    refine ⟨by rw [c₁.1, c₂.1], fun c => by rw [c₁.2.2.2 c, c₂.2.2.2 c]⟩
+
+/-! ### the pinned code (before repo_patches/fix-zero-quantity-total-cost.diff) -/
+
+def mkAmt (c : Int) (e : Int) (sym : String) : Amount := ⟨⟨c, e⟩, [], ⟨bs sym, .right, default⟩, false, default⟩
+def mkPost (acct : String) (a : Option Amount) (c : Option Cost) : Posting :=
+  ⟨.none, ⟨bs acct, default⟩, a, none, c, [], [], .none, default⟩
+def mkTx (ps : List Posting) : Transaction := ⟨default, none, .none, [], [], [], [], ps, [], [], default⟩
+
+/-- `a:b  0 AAPL @@ 5 USD` / `c:d  0 USD`. -/
+def zeroTotalTx : Transaction := mkTx [
+  mkPost "a:b" (some (mkAmt 0 0 "AAPL")) (some ⟨mkAmt 5 0 "USD", true, default⟩),
+  mkPost "c:d" (some (mkAmt 0 0 "USD")) none]
+
+/-- Before the fix a zero quantity with a total cost contributed the whole total: the
+    transaction above, whose every converted amount is 0, was reported "USD off by 5". -/
+theorem pinned_zero_quantity_total_cost_counterexample :
+    checkPinned zeroTotalTx = some ⟨false, [(bs "USD", ⟨5, 0⟩)], -1⟩ ∧
+    check zeroTotalTx = some ⟨true, [], -1⟩ := by
+  constructor <;> decide +kernel
+
 end HL.Props.C02
